@@ -183,6 +183,86 @@ fn thrice<R>(mut f: impl FnMut() -> Check<R>) -> Check<(R, [i64; 3], i64, u64)> 
     Ok((last.unwrap(), live, s.peak_bytes, s.allocs - a0))
 }
 
+/// Small cases for Miri (E4): tiny budgets, few inserts, pure-Rust codecs only.
+pub fn miri_case() -> BoxedStrategy<Case> {
+    use crate::common::{Codec, EntrySrc, WConf};
+    let conf = (256usize..1024, 16usize..256, any::<bool>(), prop::sample::select(vec![1usize, 2, 3]), any::<bool>(), prop::sample::select(vec![None, Some(Codec::None), Some(Codec::Snappy), Some(Codec::Lz4)]))
+        .prop_map(|(t, cap, allow_realloc, max_nb_chunks, stable, chunk_codec)| SConf {
+            threshold: Threshold::Exact(t),
+            init_cap: Some(cap.min(t)),
+            allow_realloc,
+            max_nb_chunks,
+            stable,
+            parallel: false,
+            chunk_codec,
+            chunk_level: None,
+            block_size: Some(1024),
+            interval: None,
+            levels: Some(1),
+            creator: CreatorKind::Instrumented,
+        });
+    let sorter = (conf, prop::sample::select(&MergeKind::ALL[..]), vec(size_spec(), 1..24), 0u8..3).prop_map(|(conf, kind, sizes, exit)| Case::Sorter { conf, kind, sizes, exit });
+    let file = (
+        prop::sample::select(vec![Codec::None, Codec::Snappy, Codec::Lz4, Codec::SnappyPre05]),
+        0u8..=2,
+        prop::sample::select(vec![None, Some(1usize), Some(3)]),
+        vec((gen::key_any(), gen::val_small()), 0..12),
+    )
+        .prop_map(|(codec, levels, interval, l)| FileSpec { conf: WConf { codec, level: 0, block_size: Some(1024), interval, levels }, src: EntrySrc::List(l) });
+    let reader = (file, vec(gen::probe(), 0..4), gen::history(16)).prop_map(|(spec, probes, ops)| Case::Reader { spec, probes, ops });
+    prop_oneof![3 => sorter, 1 => reader].boxed()
+}
+
+/// Executes a case once without the checking allocator (Miri or a sanitizer is the oracle); content is still checked.
+pub fn run_plain(case: &Case) -> Check {
+    match case {
+        Case::Sorter { conf, kind, sizes, exit } => {
+            let (lens, _, _, _) = plan(conf, sizes);
+            let inserts: Vec<(Vec<u8>, Vec<u8>)> = lens
+                .iter()
+                .enumerate()
+                .map(|(i, (k, v))| {
+                    let mut key = vec![b'a' + (i % 7) as u8; *k];
+                    if let Some(l) = key.last_mut() {
+                        *l = (i % 5) as u8;
+                    }
+                    (key, vec![(i as u8) ^ 0x3c; *v])
+                })
+                .collect();
+            let fed: Vec<(Vec<u8>, Vec<u8>)> = match kind {
+                MergeKind::Concat => inserts.iter().map(|(k, v)| (k.clone(), record(v))).collect(),
+                _ => inserts.clone(),
+            };
+            let distinct = sm::group(&fed).len();
+            let exit = [Exit::Stream, Exit::Writer, Exit::Cursors][*exit as usize % 3];
+            let s = feed(conf, MF::plain(*kind), Creator { ctl: ioinstr::ctl() }, &fed)?;
+            let out = drain(s, exit, *kind, &crate::common::WConf::plain(), distinct + 1)?;
+            if let Err(e) = output_ok(*kind, conf.stable, &inserts, &out.entries) {
+                fail!("c17:content", "output corrupted ({}): {}", conf.label(), e);
+            }
+            Ok(())
+        }
+        Case::Reader { spec, probes, ops } => {
+            let entries = spec.src.entries();
+            let bytes = write_file(&spec.conf, &entries)?;
+            let reader = rd::open(&bytes)?;
+            let mut c = rd::guard("into_cursor", || reader.clone().into_cursor())?;
+            let fwd = rd::scan_fwd(&mut c, entries.len() + 1)?;
+            if fwd != entries {
+                fail!("c17:content", "forward scan differs from the content");
+            }
+            for p in probes {
+                let q = p.bytes(&entries);
+                let mut c2 = c.clone();
+                rd::apply(&mut c2, &COp::Le(q.clone()))?;
+                rd::apply(&mut c, &COp::Ge(q))?;
+            }
+            crate::props::c03::run_history(&bytes, &entries, ops, None)?;
+            Ok(())
+        }
+    }
+}
+
 impl Prop for C17 {
     type Case = Case;
 
